@@ -285,7 +285,7 @@ func badFrost(c *fw.Ctx) *badCase {
 		m := scen.PrepMaterial(c, p, ids, t, "prep")
 		msg := scen.DrawMsg(c)
 		signers := scen.DrawSubset(c.S, ids, t+1)
-		classes := []string{"signers-too-few", "signers-non-shareholder", "signers-duplicate", "signers-without-self", "message-nil", "message-empty", "config-nil", "config-zero-value", "config-stripped-share", "config-stripped-table"}
+		classes := []string{"signers-too-few", "signers-non-shareholder", "signers-duplicate", "signers-without-self", "message-nil", "message-empty", "config-nil", "config-zero-value", "config-stripped-share", "config-stripped-table", "signers-foreign-replaces-shareholder"}
 		bc.class = classes[c.S.Draw(len(classes), "class")]
 		if bc.class == "signers-too-few" && t == 0 {
 			bc.class = "signers-non-shareholder"
@@ -310,6 +310,8 @@ func badFrost(c *fw.Ctx) *badCase {
 				sg = o
 			case "signers-non-shareholder":
 				sg = append(append([]party.ID{}, signers...), foreignID)
+			case "signers-foreign-replaces-shareholder":
+				sg = replaceOneWithForeign(ids, id)
 			case "signers-duplicate":
 				sg = append(append([]party.ID{}, signers...), signers[0])
 			case "signers-without-self":
@@ -583,7 +585,7 @@ func badCMP(c *fw.Ctx) *badCase {
 	}
 	msg := scen.DrawMsg(c)
 	signers := scen.DrawSubset(c.S, ids, t+1)
-	sgClasses := []string{"signers-too-few", "signers-non-shareholder", "signers-duplicate", "signers-without-self"}
+	sgClasses := []string{"signers-too-few", "signers-non-shareholder", "signers-duplicate", "signers-without-self", "signers-foreign-replaces-shareholder"}
 	classes := append(append([]string{}, sgClasses...), cfgClasses...)
 	if kind == 2 { // (presign-full with an empty message IS the offline presign, which is valid)
 		classes = append(classes, msgClasses...)
@@ -602,6 +604,8 @@ func badCMP(c *fw.Ctx) *badCase {
 			sg = o
 		case "signers-non-shareholder":
 			sg = append(append([]party.ID{}, signers...), foreignID)
+		case "signers-foreign-replaces-shareholder":
+			sg = replaceOneWithForeign(ids, id)
 		case "signers-duplicate":
 			sg = append(append([]party.ID{}, signers...), signers[0])
 		case "signers-without-self":
@@ -676,4 +680,17 @@ func badCMP(c *fw.Ctx) *badCase {
 		}
 	}
 	return bc
+}
+
+// replaceOneWithForeign: the full shareholder list with one member other than self replaced by a
+// stranger - as many distinct signers as shareholders, self included, yet not a subset of them.
+func replaceOneWithForeign(ids []party.ID, self party.ID) []party.ID {
+	out := append([]party.ID{}, ids...)
+	for i, x := range out {
+		if x != self {
+			out[i] = foreignID
+			break
+		}
+	}
+	return out
 }
